@@ -56,7 +56,7 @@ type Exec struct {
 	assumed    map[string]bool
 	ifaceFacts map[*Term]bool
 	symObjs    map[*Term]*Obj
-	utcLoc     *Obj // the Location object UTC() results point to
+	utcLoc     *Obj            // the Location object UTC() results point to
 	callees    map[string]bool // contracts of callees this execution relied on (keys of World.Specs)
 	ordinal    map[ssa.Instruction]int
 	globals    map[string]*Obj
@@ -446,7 +446,16 @@ func (x *Exec) execFrom(st *State, fr *Frame, b, prev *ssa.BasicBlock, start int
 			})
 			return
 		case *ssa.Call:
+			// a call may continue more than once (its paths, its outcomes); every continuation starts from the registers
+			// as they were at the call, not as an earlier continuation left them (loop phis are rebound at back edges)
+			var snap *Frame
 			x.doCall(st, fr, v, &v.Call, func(st2 *State, res []Value) {
+				if snap == nil {
+					snap = cloneFrame(fr)
+				} else {
+					c := cloneFrame(snap)
+					fr.Regs, fr.Defers = c.Regs, c.Defers
+				}
 				if v.Call.Signature().Results().Len() == 1 {
 					fr.Regs[v] = res[0]
 				} else if v.Call.Signature().Results().Len() > 1 {
